@@ -42,9 +42,7 @@ def cases(tier, rng):
         cs.append({"line": line, "key": line, "model": False, "tags": {"carrier": c, "stall": st + "x20"}})
     # what a port scanner sends (a complete request whose first line has one blank) to every kind of endpoint that reads the handshake
     # itself; twenty websocket peers stalled AFTER the websocket upgrade, inside the session handshake
-    for c in ("tcp", "kcp", "dns", "tcp+tls") if thorough else ("tcp", "kcp", "dns"):
-        if c == "tcp+tls":
-            continue      # (a TLS endpoint never sees the line)
+    for c in ("tcp", "kcp", "dns", "tcp-starttls", "kcp-starttls") if tier == "thorough" else ("tcp", "kcp", "dns"):
         line = "c15 %s scanner %d" % (c, n)
         cs.append({"line": line, "key": line, "model": False, "tags": {"carrier": c, "stall": "scanner"}})
     for st in ("upgraded", "upgraded-halfline"):
